@@ -16,8 +16,9 @@ for c in "$@"; do
   rc=$?
   t1=$(date +%s)
   first=$(echo "$out" | grep -A1 '^VIOLATION' | sed -n 2p | cut -c1-160)
+  total=$(echo "$out" | grep -a -o '[0-9]* violations' | head -1)
   case $rc in
-    1) echo "CAUGHT  $c ($((t1-t0))s) $first" ;;
+    1) echo "CAUGHT  $c ($((t1-t0))s) $first [$total]" ;;
     0) echo "MISSED  $c ($((t1-t0))s)" ;;
     *) echo "INCONCL $c rc=$rc ($((t1-t0))s) $(echo "$out" | grep INCONCLUSIVE | head -2 | cut -c1-200)" ;;
   esac
